@@ -12,7 +12,7 @@ import os
 import sys
 
 from u3vworld import std_world, SIRM
-from vplib import Case, Check, Rng, xhex, zlist, zlit, _clip, REPO
+from vplib import Case, Check, Rng, xhex, zlist, zlit, _clip, REPO, NPROC
 
 MASK32 = 0xFFFFFFFF
 MONO8 = 0x01080001
@@ -715,6 +715,30 @@ def boundary_cases():
             tr += good_frame(P0, 210 + ix) + f[:ix] + [bad]
         tr += good_frame(P0, 120)
         add(P0, tr, note="transfer error %r at every transfer index" % (err,))
+    # a transfer fault in the middle of a frame (after the leader and k payload transfers), then a frame
+    # that delivers fewer payload bytes than its buffer takes, with a valid_payload_size below / equal to /
+    # above what arrived in THAT frame: nothing counted for the faulted frame may be carried over
+    for prm in (P0, P1, P3, Params(52, 36, 16, 3, 0, 0)):
+        n = len(prm.slots())
+        tot = prm.maxp()
+        for err in (99, "T", 8):
+            tr = good_frame(prm, 300)
+            bid = 301
+            for ix in range(1, n):
+                for recv in sorted({0, 1, prm.psizes()[0] - 1, prm.psizes()[0]}):
+                    for valid in sorted({max(recv - 1, 0), recv, recv + 1, tot}):
+                        fn = good_frame(prm, bid)
+                        tr += fn[:ix] + [err]
+                        fs = good_frame(prm, bid + 1, valid=valid)
+                        fs[1] = fs[1][:recv]
+                        for j in range(2, n - 1):
+                            fs[j] = b""
+                        tr += fs
+                        bid += 2
+                tr += good_frame(prm, bid)
+                bid += 1
+            add(prm, tr, cap_p=1024, note="fault %r inside a frame at every transfer index, then a short frame with valid size "
+                                          "below / equal / above what it delivered (%d transfers per frame)" % (err, n))
     # the device keeps sending the rest of a frame after a time-out (host and device out of step)
     f = good_frame(P0, 130)
     add(P0, good_frame(P0, 129) + f[:2] + ["T"] + f[2:] + good_frame(P0, 131) + good_frame(P0, 132),
@@ -795,6 +819,15 @@ def random_case(rng, sched):
         elif kind == 6:
             j = rng.below(len(f))
             f[j] = bytes(rng.bytes(len(f[j])))
+        elif kind in (8, 9) and len(f) > 3:
+            # fault after the leader and some payload transfers, then a short frame claiming more or less
+            j = rng.range(2, len(f) - 1)
+            g = good_frame(prm, 2000 + b, pt, valid=rng.choice([0, 1, tot, rng.below(tot + 2)]))
+            r = rng.below(len(g[1]) + 1)
+            g[1] = g[1][:r]
+            for jj in range(2, len(g) - 1):
+                g[jj] = b"" if rng.chance(3, 4) else g[jj]
+            f = f[:j] + [rng.choice([0, 8, 99, "T"])] + g
         elif kind == 7 and len(f) > 3:
             # short inner payload transfer, later data present
             f[1] = f[1][:rng.below(len(f[1]) + 1)]
@@ -864,11 +897,199 @@ def gen_cases(ck):
     return cs, nb
 
 
+# ------------------------------------------------- the real AsyncPool over a fake libusb --
+
+REFUSE_CODES = [-1, -2, -3, -4, -5, -6, -7, -8, -9, -10, -11, -12, -99]
+# libusb error code -> class printed by rust/h_async (LibUsbError::from_libusb_error)
+ERR_CLASS = {-1: 0, -2: 1, -3: 2, -4: 3, -5: 4, -6: 5, -7: 6, -8: 7, -9: 8, -10: 9, -11: 10, -12: 11, -99: 13}
+# libusb_transfer_status -> class of the error poll returns (0 = completed)
+STATUS_CLASS = {1: 13, 3: 6, 4: 8, 5: 3, 6: 7}
+STUCK = 1000000
+SUBMIT, POLL, PENDING, CANCEL, PDROP, PNEW, EMPTY = 1, 2, 3, 4, 5, 6, 7
+
+
+def pool_case(plan, ops, note=""):
+    """plan: [('r', code) | ('a', status, len, delay)] per libusb_submit_transfer call; ops: [(op, arg)]"""
+    t = [len(plan)]
+    for e in plan:
+        t += [0, e[1]] if e[0] == "r" else [1, e[1], e[2], e[3]]
+    t += [len(ops)] + [v for o in ops for v in o]
+    return Case("pool", t, meta=dict(plan=list(plan), ops=list(ops), note=note, fam="pool"))
+
+
+def pool_boundary_cases():
+    cs = []
+    ok = lambda n=8, d=0: ("a", 0, n, d)
+    # one refused submission at every position of a frame's worth of transfers, every error code
+    for code in REFUSE_CODES:
+        for pos in range(5):
+            plan = [ok(4 + i) for i in range(pos)] + [("r", code)] + [ok(9 + i) for i in range(4 - pos)]
+            ops = []
+            for i in range(5):
+                ops += [(SUBMIT, 16), (PENDING, 0)]
+            cs.append(pool_case(plan, ops + [(PDROP, 0), (PNEW, 0), (SUBMIT, 8), (POLL, 10), (EMPTY, 0)],
+                                note="submit %d of 5 refused with %d, then the pool is dropped" % (pos, code)))
+            cs.append(pool_case(plan, ops + [(POLL, 10)] * 5 + [(PENDING, 0), (EMPTY, 0)],
+                                note="submit %d of 5 refused with %d, then everything is polled" % (pos, code)))
+    # every completion status, lengths at the buffer boundaries
+    for st in (0, 1, 4, 5, 6):
+        for ln in (0, 1, 15, 16, 17):
+            cs.append(pool_case([ok(3), ("a", st, ln, 0), ok(5)], [(SUBMIT, 16)] * 3 + [(POLL, 10)] * 3 + [(EMPTY, 0)],
+                                note="completion status %d with %d bytes" % (st, ln)))
+    # transfers that complete late or never: time-outs leave them pending, cancel / drop reap them
+    for d in (0, 1, 2, STUCK):
+        cs.append(pool_case([ok(4, d), ok(5, 0), ok(6, STUCK)],
+                            [(SUBMIT, 8)] * 3 + [(POLL, 10), (PENDING, 0)] * 4 + [(CANCEL, 0), (POLL, 10), (PENDING, 0)] * 3 + [(EMPTY, 0)],
+                            note="front transfer due after %d polls, last one never" % d))
+        cs.append(pool_case([ok(4, d), ("r", -11), ok(6, STUCK)], [(SUBMIT, 8)] * 3 + [(PENDING, 0), (PDROP, 0)],
+                            note="drop with transfers in flight (front due after %d polls) and one refused" % d))
+    cs.append(pool_case([], [(PENDING, 0), (EMPTY, 0), (CANCEL, 0), (PDROP, 0), (PNEW, 0), (EMPTY, 0)], note="empty pool"))
+    cs.append(pool_case([("r", -4)] * 6, [(SUBMIT, 8), (PENDING, 0)] * 6 + [(PDROP, 0)], note="every submission refused"))
+    return cs
+
+
+def pool_random_case(rng):
+    plan = []
+    for _ in range(rng.range(0, 12)):
+        if rng.chance(1, 5):
+            plan.append(("r", rng.choice(REFUSE_CODES)))
+        else:
+            plan.append(("a", rng.choice([0, 0, 0, 0, 1, 4, 5, 6]), rng.below(40), rng.choice([0, 0, 0, 1, 2, STUCK])))
+    ops = []
+    for _ in range(rng.range(1, 24)):
+        k = rng.below(12)
+        if k < 5:
+            ops.append((SUBMIT, rng.range(0, 32)))
+        elif k < 8:
+            ops.append((POLL, 10))
+        elif k == 8:
+            ops.append((PENDING, 0))
+        elif k == 9:
+            ops.append((CANCEL, 0))
+        elif k == 10:
+            ops += [(PDROP, 0), (PNEW, 0)] if rng.chance(2, 3) else [(PDROP, 0)]
+        else:
+            ops.append((EMPTY, 0))
+    return pool_case(plan, ops, note="random")
+
+
+def pool_predicate(c, out):
+    """The property on the output of the real AsyncPool alone: operations return (no wedge), a refused
+    submission is reported with its error and leaves the pool as it was, polls return the completions
+    of the accepted transfers in submission order with the device's data in the right buffer, a
+    time-out leaves the transfer pending, and after a drop nothing is in flight."""
+    if out in ([3], [4]) or out is None:
+        return ("the harness hung or died: an AsyncPool operation (poll / drop) never returned - "
+                "it waits for a transfer libusb never accepted: %r" % (out,))
+    plan = list(c.meta["plan"])
+    p = 0
+    inpool = []          # accepted and not reaped, in submission order: [status, len, due epoch, cancel requested]
+    have_pool = True
+    epoch = 0
+    for op, arg in c.meta["ops"]:
+        if op == SUBMIT:
+            if not have_pool:
+                continue
+            e = plan.pop(0) if plan else ("a", 0, arg, 0)
+            if out[p] == 2:
+                return "submit panicked"
+            if e[0] == "r":
+                if out[p:p + 2] != [1, ERR_CLASS[e[1]]]:
+                    return "a refused submission (libusb code %d) was reported as %r" % (e[1], out[p:p + 2])
+                p += 2
+            else:
+                if out[p] != 0:
+                    return "an accepted submission was reported as an error"
+                p += 1
+                inpool.append([e[1], min(e[2], arg), epoch + e[3], False])
+        elif op == POLL:
+            if not have_pool:
+                continue
+            if not inpool:
+                if out[p] != -1:
+                    return "the pool is not empty although every accepted transfer has been returned"
+                p += 1
+                continue
+            if out[p] == -1:
+                return "the pool is empty although an accepted transfer has not been returned"
+            if out[p] == 2:
+                return "poll panicked"
+            epoch += 1
+            st, ln, due, canc = inpool[0]
+            if out[p] == 0:
+                inpool.pop(0)
+                if out[p + 1] != ln or out[p + 2] != 1:
+                    return "poll returned %d bytes (data in the front buffer: %s), the next transfer in submission order delivered %d" % (
+                        out[p + 1], "ok" if out[p + 2] == 1 else "wrong", ln)
+                if st != 0:
+                    return "poll returned Ok for a transfer that completed with status %d" % st
+                p += 3
+            else:
+                cls = out[p + 1]
+                if cls != 6:
+                    inpool.pop(0)
+                    if STATUS_CLASS.get(st) != cls:
+                        return "poll returned error class %d, the next transfer in submission order completed with status %d" % (cls, st)
+                elif canc:
+                    inpool.pop(0)      # CANCELLED is reported as a time-out and the transfer is reaped
+                elif due < epoch:
+                    return "poll timed out although the device had completed the front transfer"
+                p += 2
+        elif op == PENDING:
+            v = out[p]
+            p += 1
+            if have_pool and v != len(inpool):
+                return "pending() = %d, %d accepted transfers have not been returned" % (v, len(inpool))
+        elif op == EMPTY:
+            v = out[p]
+            p += 1
+            if have_pool and v != (0 if inpool else 1):
+                return "is_empty() = %d with %d accepted transfers not returned" % (v, len(inpool))
+        elif op == CANCEL:
+            if have_pool:
+                for t in inpool:
+                    t[3] = True
+        elif op == PDROP:
+            if have_pool:
+                if out[p:p + 2] != [0, 0]:
+                    return "after the drop of the pool %d transfers are in flight, %d were freed while in flight" % (out[p], out[p + 1])
+                p += 2
+                have_pool, inpool = False, []
+        elif op == PNEW:
+            have_pool = True
+    if out[p] != -9:
+        return "output not understood at %d: %r" % (p, _clip(out))
+    calls, acc, ref, comp, nf, infl, freed = out[p + 1:p + 8]
+    if infl or freed:
+        return "at the end %d transfers are in flight, %d were freed while in flight" % (infl, freed)
+    if calls != acc + ref:
+        return "submit calls %d != accepted %d + refused %d" % (calls, acc, ref)
+    return None
+
+
+def run_pool_family(ck):
+    binary, log = ck.cargo_build("h_async")
+    if binary is None:
+        path = ck.write_replay({"kind": "build", "property": "C12", "unchecked": "correspondence via rust/h_async (real cameleon-device over a fake libusb)", "log": log[-6000:]})
+        ck.violations.append((path, True, "harness rust/h_async does not build against the repository: the AsyncPool correspondence cannot be established"))
+        return
+    rng = Rng(ck.seed + 77)
+    cases = pool_boundary_cases() + [pool_random_case(rng) for _ in range(400 if ck.tier == "quick" else 6000)]
+    impl = ck.run_impl(binary, [c.line for c in cases], jobs=NPROC, timeout=120 if ck.tier == "quick" else 1500)
+    model = ck.run_model_terms(["AsyncPool"], ["run_pool %s" % zlist(c.expanded()) for c in cases], per_eval=100)
+    # a case the process did not survive is [4] on the implementation side and [3] (never returns) in the model
+    ck.compare(cases, impl, model, pool_predicate, lambda c, o: bool(o) and len(o) > 12, None,
+               correspondence="real AsyncPool (device/src/u3v/async_read.rs over the fake libusb) = model/AsyncPool.v on the same operation sequence",
+               family="pool")
+    ck.dist["pool_refused_submissions"] = sum(1 for c in cases for e in c.meta["plan"] if e[0] == "r")
+
+
+
 # ------------------------------------------------------------------------------ main --
 
 def run_cases(ck, binary, cases):
     lines = [c.line for c in cases]
-    impl = ck.run_impl(binary, lines, jobs=16, timeout=120 if ck.tier == "quick" else 900)
+    impl = ck.run_impl(binary, lines, jobs=NPROC, timeout=120 if ck.tier == "quick" else 1500)
     terms, idx = [], []
     model = [None] * len(cases)
     for i, (c, o) in enumerate(zip(cases, impl)):
@@ -902,6 +1123,7 @@ def main():
         "rust/achan: the real async-channel behind a wrapper that performs and logs every operation under one lock (total order of the trace)",
         "std::sync::mpsc zero-capacity channel and async-channel are modelled (atomic FIFO / rendezvous operations), thread scheduling is sampled, not enumerated",
         "tools/c12.py labels_of_trace: placement of the unobservable cancellation check / send registration between observed events",
+        "rust/h_async/src/fake_usb.rs: in-memory libusb (enumeration always succeeds; scripted submit refusals / completions; event handling completes what is due or cancelled) under the REAL cameleon-device crate and rusb",
     ]
     ck.prove()
     ck.phase("prove")
@@ -940,6 +1162,8 @@ def main():
     ck.compare(cases, summ, model, lambda c, _o: predicate(c, raw[id(c)]), lambda c, _o: nontrivial(c, raw[id(c)]),
                None, correspondence="trace of the real threads accepted by StreamLoop.step, every received item predicted",
                family="strm")
+    run_pool_family(ck)
+    ck.phase("pool")
     # statistics (also what C11 can cite for PayloadBuilder::build through the real loop)
     ok_items = err_items = frames = accessor = panics = ext_ok = 0
     kinds = {}
